@@ -442,3 +442,105 @@ def unmut(t):
         prev = t
         t = T.subst(t, f)
     return t
+
+
+# --------------------------------------------------------------------------
+# TAB: evaluation of a term over one cell of a finite partition
+
+class Undecided(Exception):
+    pass
+
+
+def eval_cell(t, env):
+    """Value of term t when the atoms in env (atom -> python value) take the
+    given values.  Only constant folding: arithmetic, floordiv/mod,
+    comparisons, boolean structure, gated phis.  Raises Undecided when an
+    atom is not bound."""
+    if isinstance(t, R):
+        a = t.single_atom()
+        if a is not None and (a in env or a[0] in ("const", "cmp", "and", "or", "not", "ite", "floordiv", "mod", "in", "notin")):
+            return _eval_atom(a, env)
+        def poly(p):
+            acc = Fraction(0)
+            for m, c in p:
+                v = Fraction(c)
+                for x, pw in m:
+                    xv = _eval_atom(x, env)
+                    if isinstance(xv, bool):
+                        xv = int(xv)
+                    if not isinstance(xv, (int, Fraction)):
+                        raise Undecided("non-numeric value in arithmetic: %r" % (xv,))
+                    v *= Fraction(xv) ** pw
+                acc += v
+            return acc
+        n = poly(t.num)
+        if t.den != (((), Fraction(1)),):
+            d = poly(t.den)
+            if d == 0:
+                raise Undecided("division by zero")
+            n = n / d
+        return int(n) if n.denominator == 1 else n
+    raise Undecided("not a term")
+
+
+def _eval_atom(a, env):
+    if a in env:
+        return env[a]
+    k = a[0]
+    if k == "const":
+        return a[1]
+    if k == "cmp":
+        op, d = a[1], a[2]
+        # symbolic constants compare by identity: evaluate both sides of d = lhs - rhs
+        pos, neg = [], []
+        try:
+            v = eval_cell(d, env)
+        except Undecided:
+            # d may be a difference of non-numeric values (strings / None)
+            vals = []
+            for m, c in d.num:
+                if len(m) != 1 or m[0][1] != 1 or abs(c) != 1:
+                    raise
+                vals.append((c, _eval_atom(m[0][0], env)))
+            if len(vals) == 2 and vals[0][0] == -vals[1][0]:
+                eq = vals[0][1] == vals[1][1]
+                if op == "==":
+                    return eq
+                if op == "!=":
+                    return not eq
+            raise
+        return {"==": v == 0, "!=": v != 0, ">": v > 0, ">=": v >= 0}[op]
+    if k == "and":
+        return all(bool(eval_cell(x, env)) for x in a[1])
+    if k == "or":
+        return any(bool(eval_cell(x, env)) for x in a[1])
+    if k == "not":
+        return not bool(eval_cell(a[1], env))
+    if k == "ite":
+        return eval_cell(a[2], env) if bool(eval_cell(a[1], env)) else eval_cell(a[3], env)
+    if k == "floordiv":
+        return eval_cell(a[1], env) // eval_cell(a[2], env)
+    if k == "mod":
+        return eval_cell(a[1], env) % eval_cell(a[2], env)
+    if k in ("in", "notin"):
+        x = eval_cell(a[1], env)
+        tup = a[2].single_atom()
+        if tup is None or tup[0] not in ("tuple", "list", "set"):
+            raise Undecided("membership in a non-literal")
+        r = any(x == eval_cell(y, env) for y in tup[1])
+        return r if k == "in" else not r
+    raise Undecided("unbound atom %s" % (T.pretty_atom(a)[:60],))
+
+
+def holds_under(ev, env):
+    """Do all guards of an event hold in the cell?  (None if undecided)"""
+    try:
+        for p in ev.pc:
+            a = p.cond.single_atom()
+            if a is not None and a[0] == "inloop":
+                continue
+            if not bool(eval_cell(p.cond, env)):
+                return False
+        return True
+    except Undecided:
+        return None
